@@ -18,6 +18,7 @@ import (
 	"math/rand"
 	mrand2 "math/rand/v2"
 	"path/filepath"
+	"sort"
 	"sync"
 	"sync/atomic"
 	"time"
@@ -207,6 +208,13 @@ func (r *verifC12Rec) applyLocked(cmd multiraft.Command, batch int) []byte {
 	id := string(cmd.Data)
 	r.c.hist.add(verifC12Event{Kind: "apply", Node: r.node, Slot: r.slot, Inc: int(r.inc.Load()),
 		Index: cmd.Index, Term: cmd.Term, ID: id, HashSlot: cmd.HashSlot, Batch: batch})
+	if n := len(r.content); n > 0 && r.content[n-1].Index >= cmd.Index {
+		// handed a command again (the oracle judges whether that was allowed,
+		// see resumeFloor): like an idempotent state machine the recorder keeps
+		// its state a function of the log prefix instead of holding it twice
+		i := sort.Search(n, func(i int) bool { return r.content[i].Index >= cmd.Index })
+		r.content = append([]verifC12Cmd(nil), r.content[:i]...)
+	}
 	r.content = append(r.content, verifC12Cmd{Index: cmd.Index, Term: cmd.Term, ID: id})
 	r.last, r.lastCmd, r.lastTerm = cmd.Index, cmd.Index, cmd.Term
 	return []byte(verifC12Result(id))
